@@ -1,10 +1,4 @@
-mod drive;
-mod e1;
-mod ev;
-mod gen;
-mod props;
-mod tape;
-mod tok;
+use engine::{ev, props};
 
 use ev::{Ctx, Tier};
 
